@@ -741,6 +741,22 @@ func TestC01(t *testing.T) {
 			cc.Caller = caller
 			run(rt, cc, kinds, true)
 		})
+		// well-formed but structurally rich inputs of other properties' generators (matrix value trees with
+		// include / exclude entries derived from each other; needs graphs): deep comparisons and graph
+		// searches must not crash either
+		r.Check(t, "matrix-value-trees", hx.N(600, 10000), func(rt *rapid.T) {
+			n := rapid.IntRange(1, 2).Draw(rt, "nmatrices")
+			var cs []*c19Case
+			for i := 0; i < n; i++ {
+				cs = append(cs, c19gen(rt))
+			}
+			src, _ := c19BuildJobs(cs, cs[0].Indent)
+			run(rt, newC01Case("workflow", []byte(src)), []string{"matrix-value-tree"}, true)
+		})
+		r.Check(t, "reference-shapes", hx.N(400, 8000), func(rt *rapid.T) {
+			c5, _, _ := genC05Shape(rt, nil)
+			run(rt, newC01Case("workflow", []byte(c5.YAML)), []string{"reference-shape"}, true)
+		})
 		// every string up to length 5 (thorough 6) over {a / @ . : -} as the value of a step-level and a
 		// job-level `uses:` (the spec parsers slice these strings by the positions of / and @)
 		{
